@@ -201,8 +201,8 @@ Proof. vm_compute. repeat split. Qed.
 (* why the loop discipline is a hypothesis: a block chunk that executes Break on the CALLER's
    loop frame (nothing the parser can produce: blocks cannot be nested in for loops, and `break`
    is rejected outside them) jumps to the caller's stored end_ip, which the pass has re-mapped
-   for the caller's chunk only (9 -> 7). Here the unoptimised render writes "9", the optimised
-   one "789";
+   for the caller's chunk only (9 -> 7). Here the unoptimised render writes "<x>9", the
+   optimised one "<x>789";
    check_chunk rejects the block chunk. *)
 Definition bad_blk : list instr :=
   [Break; WriteText [49]%N; WriteText [50]%N; WriteText [51]%N; WriteText [52]%N; WriteText [53]%N;
